@@ -266,6 +266,15 @@ fn scan_hot_keys(img: &[u8]) -> Vec<(usize, usize)> {
     out
 }
 
+thread_local! {
+    /// where the current base image stores integers that serve as a deferred stream Length (reach probe only)
+    static LENGTH_OBJECT_SPANS: std::cell::RefCell<Vec<(usize, usize)>> = const { std::cell::RefCell::new(Vec::new()) };
+}
+fn note_length_objects(fields: &[(usize, usize, refwriter::FieldKind)]) {
+    let v: Vec<(usize, usize)> = fields.iter().filter(|f| f.2 == refwriter::FieldKind::LengthObject).map(|f| (f.0, f.1)).collect();
+    LENGTH_OBJECT_SPANS.with(|c| *c.borrow_mut() = v);
+}
+
 fn base_image(ctx: &Ctx) -> Result<(Vec<u8>, Option<Vec<u8>>, Vec<(usize, usize)>, &'static str), Violation> {
     match ctx.draw(W, 8, "c04-base") {
         7 => {
@@ -326,9 +335,16 @@ fn base_image(ctx: &Ctx) -> Result<(Vec<u8>, Option<Vec<u8>>, Vec<(usize, usize)
                 hot.push((at.saturating_sub(32), at));
                 i = at + 10;
             }
-            for k in [&b"/O"[..], b"/U", b"/OE", b"/UE", b"/Perms", b"/V ", b"/R ", b"/Length", b"/CFM", b"/P "] {
-                if let Some(p) = img.windows(k.len()).position(|w| w == k) {
-                    hot.push((p, (p + k.len() + 40).min(img.len())));
+            // the encryption dictionary: every key name (a damaged name is a missing entry) and the
+            // start of every value, weighted so that they are hit about as often as all the rest
+            for k in [&b"/O"[..], b"/U", b"/OE", b"/UE", b"/Perms", b"/V ", b"/R ", b"/Length", b"/CFM", b"/P ", b"/CF", b"/StmF", b"/StrF", b"/EncryptMetadata", b"/Filter/Standard", b"/Encrypt"] {
+                if let Some(p) = img.windows(k.len()).rposition(|w| w == k) {
+                    for _ in 0..3 {
+                        hot.push((p, p + k.len()));
+                    }
+                    for _ in 0..2 {
+                        hot.push((p + k.len(), (p + k.len() + 40).min(img.len())));
+                    }
                 }
             }
             Ok((img, None, hot, "lopdf-encrypted document (empty user password)"))
@@ -376,6 +392,7 @@ fn base_image(ctx: &Ctx) -> Result<(Vec<u8>, Option<Vec<u8>>, Vec<(usize, usize)
             let w = refwriter::write_history(ctx, &revs, &opts);
             let mut hot: Vec<(usize, usize)> = w.layout.fields.iter().map(|f| (f.0, f.1)).collect();
             hot.extend(scan_hot(&w.bytes));
+            note_length_objects(&w.layout.fields);
             Ok((w.bytes, None, hot, "reference-writer rich document"))
         }
         4 => {
@@ -385,6 +402,7 @@ fn base_image(ctx: &Ctx) -> Result<(Vec<u8>, Option<Vec<u8>>, Vec<(usize, usize)
             let older = if last > 0 { Some(h.written.bytes[..h.written.layout.revision_ends[last - 1]].to_vec()) } else { None };
             let mut hot: Vec<(usize, usize)> = h.written.layout.fields.iter().map(|f| (f.0, f.1)).collect();
             hot.extend(scan_hot(&h.written.bytes));
+            note_length_objects(&h.written.layout.fields);
             Ok((h.written.bytes.clone(), older, hot, "reference-writer history"))
         }
         _ => {
@@ -480,10 +498,15 @@ fn on_small_stack<T: Send>(ctx: &Ctx, f: impl FnOnce() -> T + Send) -> T {
 }
 
 pub fn c04_faulted(ctx: &Ctx, out: &mut RunOut) -> Result<(), Violation> {
-    for k in ["fault-truncate", "fault-bit-flip", "fault-byte-burst", "fault-zero-block", "fault-stale-block", "fault-misdirected-block", "fault-duplicated-block", "fault-splice", "fault-digit-edit", "fault-ref-retarget", "fault-cipher-pad-edit", "entry-load-mem", "entry-load-from-faulty-source", "entry-incremental-load", "base-deep-nesting", "base-encrypted", "faulted-image-loaded-ok", "faulted-image-rejected"] {
+    for k in ["fault-truncate", "fault-bit-flip", "fault-byte-burst", "fault-zero-block", "fault-stale-block", "fault-misdirected-block", "fault-duplicated-block", "fault-splice", "fault-digit-edit", "fault-ref-retarget", "fault-cipher-pad-edit", "fault-number-extreme", "fault-deferred-length-edit", "base-with-deferred-length-in-the-clear", "deferred-length-changed-in-place", "deferred-length-extreme-only-fault", "entry-load-mem", "entry-load-from-faulty-source", "entry-incremental-load", "base-deep-nesting", "base-encrypted", "faulted-image-loaded-ok", "faulted-image-rejected"] {
         ctx.count_n(k, 0); // registered so that a probe that never fires shows up as zero in the evidence
     }
+    LENGTH_OBJECT_SPANS.with(|c| c.borrow_mut().clear());
     let (base, older, hot, what) = base_image(ctx)?;
+    let length_spans: Vec<(usize, usize)> = LENGTH_OBJECT_SPANS.with(|c| c.borrow().clone());
+    if !length_spans.is_empty() {
+        ctx.count("base-with-deferred-length-in-the-clear");
+    }
     ctx.event("c04-base", base.len() as u64, simcore::fnv(&base));
     let n_variants = if thorough() { 12 } else { 6 };
     let mut kinds_seen: Vec<&'static str> = Vec::new();
@@ -492,7 +515,25 @@ pub fn c04_faulted(ctx: &Ctx, out: &mut RunOut) -> Result<(), Violation> {
         let mut img = base.clone();
         let n_faults = 1 + ctx.draw(F, 4, "n-faults");
         let mut kinds: Vec<&'static str> = Vec::new();
-        for _ in 0..n_faults {
+        // files that keep a stream Length inside an unfiltered object stream: a fifth of the variants is one
+        // same-size corruption of such an integer into a value near the file size or near the distance
+        // to the end of the file (the loader's second pass over streams with a deferred Length)
+        if !length_spans.is_empty() && ctx.chance(F, 1, 5, "deferred-length-edit") {
+            let (a, b) = length_spans[ctx.draw(F, length_spans.len() as u64, "deferred-length-which") as usize];
+            let len = img.len() as u64;
+            let base_v = [len, len, len - a as u64, a as u64, len / 2][ctx.draw(F, 5, "deferred-length-base") as usize];
+            let v = base_v.saturating_sub([0, 0, 1, 16, 200][ctx.draw(F, 5, "deferred-length-minus") as usize]) + ctx.draw(F, 2, "deferred-length-plus");
+            let digits = v.to_string().into_bytes();
+            let digits_at = (a..b).find(|&i| img[i].is_ascii_digit()).unwrap_or(a);
+            if digits.len() <= b - digits_at {
+                let mut d = vec![b'0'; b - digits_at - digits.len()];
+                d.extend_from_slice(&digits);
+                img[digits_at..b].copy_from_slice(&d);
+                ctx.count("fault-deferred-length-edit");
+                kinds.push("deferred-length-edit");
+            }
+        }
+        for _ in 0..if kinds.is_empty() { n_faults } else { 0 } {
             // encrypted images: a quarter of the faults is a byte error in the last bytes of the cipher
             // block before the final one of some stream, i.e. exactly where CBC turns it into a
             // change of the PKCS#5 padding bytes of the plaintext (pad length 0, too long, inconsistent)
@@ -523,9 +564,17 @@ pub fn c04_faulted(ctx: &Ctx, out: &mut RunOut) -> Result<(), Violation> {
                 "ref-retarget" => "fault-ref-retarget",
                 "replicated-block" => "fault-replicated-block",
                 "number-copy" => "fault-number-copy",
+                "number-extreme" => "fault-number-extreme",
                 _ => "fault-none",
             });
             kinds.push(k);
+        }
+        // reach probe: a deferred Length changed in place (nothing else moved)
+        if img.len() == base.len() && length_spans.iter().any(|&(a, b)| img[a..b] != base[a..b]) {
+            ctx.count("deferred-length-changed-in-place");
+            if kinds == ["number-extreme"] {
+                ctx.count("deferred-length-extreme-only-fault");
+            }
         }
         dump_image(&format!("c04-variant{vi}.pdf"), &img);
         h = simcore::mix(h, simcore::fnv(&img));
